@@ -110,6 +110,17 @@ impl Game {
 
 fn weight(m: &Mv) -> u64 {
     let mut w = 1;
+    // moves whose coordinate string looks like castling (or like "king takes own rook") although
+    // another piece makes them: the classic notation trap of the position command
+    if oracle::kind(m.piece) != oracle::K && !m.castle {
+        let looks_like_castling = matches!(
+            (m.from, m.to),
+            (4, 6) | (4, 2) | (60, 62) | (60, 58) | (4, 7) | (4, 0) | (60, 63) | (60, 56)
+        );
+        if looks_like_castling {
+            w += 40;
+        }
+    }
     if m.castle {
         w += 10;
     }
@@ -138,7 +149,7 @@ pub fn random_game(rng: &mut Rng, seeds: &[String], max_len: u64, need_legal_at_
         let len = rng.below(max_len + 1);
         for _ in 0..len {
             let lm = p.legal_moves();
-            if lm.is_empty() || p.half >= 98 {
+            if lm.is_empty() || (p.half >= 98 && max_len <= 200) {
                 break;
             }
             // occasionally go back and forth to create repetitions
@@ -465,9 +476,14 @@ fn c08_session(ctx: &Ctx, idx: usize, seeds: &[String]) {
                 g
             }
             (Some(pg), 5) => pg.clone(),
+            // now and then a very long game: a position command of several kilobytes
+            _ if rng.chance(1, 60) => random_game(&mut rng, seeds, 1_100, false),
             _ => random_game(&mut rng, seeds, 40, false),
         };
-        let corrupt = rng.chance(2, 5);
+        if g.moves.len() > 800 {
+            out::count("C08.commands_longer_than_800_plies", 1);
+        }
+        let corrupt = rng.chance(2, 5) && g.moves.len() < 400;
         if !corrupt {
             prev_game = Some(g.clone());
         }
@@ -789,7 +805,27 @@ fn go_session(ctx: &Ctx, idx: usize, seeds: &[String], prop: &str) {
     let mut rng = Rng::derive(ctx.seed, if prop == "C09" { 0xC09_0000 } else { 0xC14_0000 } + idx as u64);
     let Some(mut e) = spawn(ctx, &[]) else { return };
     let mut g = random_game(&mut rng, seeds, 30, true);
+    if idx % 6 == 5 {
+        // tense full-board positions (long capture chains), at most two moves in
+        let tense = corpus::tense_seeds();
+        let fen = rng.pick(&tense).clone();
+        let start = Game {
+            start_fen: fen.clone(),
+            is_startpos: false,
+            moves: vec![],
+            positions: vec![Pos::from_fen(&fen).unwrap()],
+        };
+        let n_more = rng.below(3);
+        g = extend_game(&mut rng, &start, n_more);
+        if g.last().legal_moves().is_empty() {
+            g = start;
+        }
+    }
     e.send(&g.command());
+    if prop == "C14" && idx % 5 == 4 {
+        c14_isready_storm(ctx, idx, &mut e, &g, &mut rng);
+        return;
+    }
     let gos = 1 + rng.below(5);
     for k in 0..gos {
         let p = g.last().clone();
@@ -1132,6 +1168,70 @@ fn c14_verdict(idx: usize, e: &Engine, o: &GoOutcome, l: &Limits, p: &Pos, ctxt:
     }
 }
 
+/// A burst of isready commands while the search is printing its progress: every line on stdout
+/// must still be a whole, valid line (the two threads share one output stream).
+fn c14_isready_storm(ctx: &Ctx, idx: usize, e: &mut Engine, g: &Game, rng: &mut Rng) {
+    let _ = ctx;
+    let p = g.last().clone();
+    let n = 300 + rng.below(3_000) as usize;
+    let depth = 3 + rng.below(3);
+    e.skip_to_end();
+    let from = e.log.len();
+    e.send(&format!("go depth {depth}"));
+    let mut burst = String::new();
+    for _ in 0..n {
+        burst.push_str("isready\n");
+    }
+    e.send_raw(burst.as_bytes());
+    let got_bm = e.wait_since(from, 30_000, |ev| ev.src == Src::Out && ev.line.starts_with("bestmove")).is_some();
+    // all readyoks
+    let deadline = std::time::Instant::now() + std::time::Duration::from_secs(20);
+    loop {
+        let ready = e.log[from..].iter().filter(|x| x.src == Src::Out && x.line.contains("readyok")).count();
+        if ready >= n || std::time::Instant::now() > deadline || e.out_closed {
+            break;
+        }
+        e.settle(50);
+    }
+    out::count("C14.evaluations", 1);
+    out::count("C14.isready_storms", 1);
+    out::distinct("C14.nontrivial", &format!("storm|{}|{depth}|{n}", p.fen4()));
+    let mut readyok = 0;
+    for ev in e.log[from..].iter().filter(|x| x.src == Src::Out) {
+        let l = ev.line.as_str();
+        if l == "readyok" {
+            readyok += 1;
+        } else if l.starts_with("info") {
+            if let Err(why) = parse_info(l) {
+                out::violation(
+                    "C14",
+                    "storm-info-malformed",
+                    format!("while {n} isready commands were answered during 'go depth {depth}', the info line '{l}' is malformed: {why} (position '{}')", g.command()),
+                    replay_json("C14", idx, e),
+                );
+            }
+        } else if l.starts_with("bestmove ") && l.split_whitespace().count() == 2 {
+        } else {
+            out::violation(
+                "C14",
+                "storm-torn-line",
+                format!("while {n} isready commands were answered during 'go depth {depth}', stdout carried the line '{}' which is neither an info line, readyok nor bestmove (position '{}')", l.chars().take(200).collect::<String>(), g.command()),
+                replay_json("C14", idx, e),
+            );
+        }
+    }
+    if got_bm && readyok != n && !e.out_closed {
+        out::violation(
+            "C14",
+            "storm-readyok-count",
+            format!("{n} isready sent during 'go depth {depth}', {readyok} intact readyok lines received (position '{}')", g.command()),
+            replay_json("C14", idx, e),
+        );
+    }
+    e.send("quit");
+    let _ = e.wait_exit(1_000);
+}
+
 // ---------------------------------------------------------------------------
 // C15: hostile input
 // ---------------------------------------------------------------------------
@@ -1257,7 +1357,8 @@ fn fuzz_line(rng: &mut Rng, seeds: &[String]) -> (String, bool) {
         5 => {
             // over-long argument list
             let mut t = toks.clone();
-            for _ in 0..(50 + rng.below(400)) {
+            let extra = if rng.chance(1, 4) { 3_000 + rng.below(25_000) } else { 50 + rng.below(400) };
+            for _ in 0..extra {
                 t.push((*rng.pick(KEYWORDS)).to_string());
             }
             t.join(" ")
@@ -1412,6 +1513,28 @@ fn c15_session(ctx: &Ctx, idx: usize, seeds: &[String]) {
     let from = e.log.len();
     let t = std::time::Instant::now();
     if end_with_eof {
+        // end of input may also come in the middle of a line (short, or very long, never terminated)
+        match rng.below(4) {
+            0 => {
+                let (line, _) = fuzz_line(&mut rng, seeds);
+                let cut: String = line.chars().take(1 + rng.below(12) as usize).collect();
+                e.send_raw(cut.as_bytes());
+                out::count("C15.eof_inside_a_line", 1);
+            }
+            1 => {
+                let n = 2_000 + rng.below(120_000) as usize;
+                let mut junk = String::with_capacity(n + 16);
+                junk.push_str(*rng.pick(&["position startpos moves", "go", "setoption name", "xyz", ""]));
+                while junk.len() < n {
+                    junk.push(' ');
+                    junk.push_str(*rng.pick(KEYWORDS));
+                }
+                e.send_raw(junk.as_bytes());
+                out::count("C15.eof_inside_a_line", 1);
+                out::count("C15.eof_inside_an_overlong_line", 1);
+            }
+            _ => {}
+        }
         e.close_stdin();
         out::count("C15.eof_sessions", 1);
     } else {
@@ -1440,4 +1563,83 @@ fn c15_session(ctx: &Ctx, idx: usize, seeds: &[String]) {
             e.kill();
         }
     }
+}
+
+// ---------------------------------------------------------------------------
+// C16 over UCI: a fixed-depth search from a fresh process (empty cache) must give the same
+// bestmove, score and node count whatever harmless commands surround it or arrive during it
+// ---------------------------------------------------------------------------
+
+fn c16_session(ctx: &Ctx, fen: &str, depth: u64, variant: usize, rng: &mut Rng) -> Option<(String, String, String)> {
+    let mut e = spawn(ctx, &[])?;
+    match variant {
+        1 | 3 | 5 => {
+            e.send("ucinewgame");
+        }
+        _ => {}
+    }
+    if variant == 4 || variant == 5 {
+        e.send("isready");
+        e.wait_out(READY_TIMEOUT_MS, "readyok")?;
+    }
+    e.send(&format!("position fen {fen}"));
+    e.skip_to_end();
+    let from = e.log.len();
+    e.send(&format!("go depth {depth}"));
+    if variant == 2 || variant == 3 {
+        // harmless traffic while the search runs
+        for _ in 0..(2 + rng.below(4)) {
+            e.settle(2 + rng.below(60));
+            e.send("isready");
+        }
+    }
+    e.wait_since(from, 60_000, |ev| ev.src == Src::Out && ev.line.starts_with("bestmove"))?;
+    let bm = e.log[from..].iter().find(|x| x.src == Src::Out && x.line.starts_with("bestmove")).map(|x| x.line.clone())?;
+    let last_info = e.log[from..].iter().filter(|x| x.src == Src::Out && x.line.starts_with("info")).last().map(|x| x.line.clone()).unwrap_or_default();
+    let info = parse_info(&last_info).ok()?;
+    e.send("quit");
+    let _ = e.wait_exit(1_000);
+    Some((bm, format!("{} {}", info.score_kind, info.score), format!("depth {} nodes {}", info.depth, info.nodes.unwrap_or(0))))
+}
+
+pub fn run_c16_uci(ctx: &Ctx) -> Result<(), String> {
+    let fens = corpus::bench_fens();
+    let n = if ctx.tier == "thorough" { 40 } else { 8 };
+    let picks: Vec<String> = {
+        let mut rng = Rng::derive(ctx.seed, 0xC16_0C1);
+        (0..n).map(|_| rng.pick(&fens).clone()).collect()
+    };
+    pool(ctx, picks.len(), |ctx, i| {
+        let mut rng = Rng::derive(ctx.seed, 0xC16_0000 + i as u64);
+        let fen = &picks[i];
+        let depth = 4 + rng.below(2);
+        let names = ["plain", "ucinewgame first", "isready during the search", "ucinewgame first + isready during the search", "isready handshake first", "ucinewgame + isready handshake first"];
+        let mut results: Vec<(usize, (String, String, String))> = Vec::new();
+        for v in 0..names.len() {
+            match c16_session(ctx, fen, depth, v, &mut rng) {
+                Some(r) => results.push((v, r)),
+                None => out::inconclusive("C16 UCI session gave no result", 1),
+            }
+            out::count("C16.uci_sessions", 1);
+        }
+        if let Some((_, base)) = results.first().cloned() {
+            for (v, r) in &results[1..] {
+                if *r != base {
+                    out::violation(
+                        "C16",
+                        &format!("uci-variant[{}]", names[*v]),
+                        format!(
+                            "'position fen {fen}' + 'go depth {depth}' in a fresh process: plain session gives {:?}, the session with {} gives {:?}",
+                            base, names[*v], r
+                        ),
+                        format!("{{\"kind\":\"c16-uci\",\"job\":{i}}}"),
+                    );
+                }
+            }
+            if out::want_sample() {
+                out::sample(format!("C16 over UCI: '{fen}' depth {depth}: {} session variants agree on {:?}", results.len(), base));
+            }
+        }
+    });
+    Ok(())
 }
